@@ -93,7 +93,9 @@ def gen_values(rng, n, tier_quick):
     out += [0.0, 1e-290, 1e290, -1e290, 846400000000.0, 1.5e300 if False else 1e289, 123456789012345.0, 0.000123456789012345]
     # text
     texts = ["", " ", "multi\nline\ntext", "tab\tsep", "😀 astral 𝔘𝔫𝔦", "12", "1e5", "nan", "TRUE", "=SUM(A1)", "'quoted'", '"dq"', "ß→ü", "​",
-             "x" * 1000, "y" * 100000 if not tier_quick else "y" * 20000, "a,b;c", "  lead and trail  ", "\r\n", "\x01ctl"]
+             "x" * 1000, "y" * 100000 if not tier_quick else "y" * 20000, "a,b;c", "  lead and trail  ", "\r\n", "\x01ctl",
+             # every kind of line end, alone and mixed, inside and at the ends of the text
+             "win\r\ndows", "two\r\n\r\nlines", "old\rmac", "mixed\r\n\n\rends", "\r\nlead", "trail\r\n", "nel\x85sep", "ls\u2028ps\u2029", "\n", "\r", "vt\x0bff\x0c"]
     cats = [0x41, 0x61, 0x30, 0x20, 0x5F, 0x2D, 0x28, 0x29, 0xAB, 0xBB, 0x2B, 0x24, 0x5E, 0xA9, 0x300, 0x903, 0x488, 0x2160, 0xB2,
             0x1C5, 0x2B0, 0x5D0, 0x4E00, 0xE000, 0x2028, 0x2029, 0xAD, 0x10FFFF, 0x1F600, 0xFFFD, 0x7F, 0x85]
     for cp in cats:
